@@ -575,8 +575,15 @@ func (e *Enc) havocMods(fr *Frame, st *St, ms *ModSet, includeLocals bool) {
 			e.specLoadFact(e.get(st, c), c.Sort, st)
 		}
 	}()
-	if ms.Fams["MONITOR"] {
-		// any lock acquisition / wait inside: protected state of every monitor may change
+	anyMon := ms.Fams["MONITOR"]
+	for k := range ms.Fams {
+		if strings.HasPrefix(k, "MONITOR:") || strings.HasPrefix(k, "MONITORCOND:") {
+			anyMon = true
+		}
+	}
+	if anyMon {
+		// a lock acquisition / wait inside: the protected state of that monitor (of every
+		// monitor when the mutex cannot be identified) may change
 		ms2 := newModSet()
 		ms2.union(ms)
 		ms2.Top = ms.Top
@@ -584,6 +591,15 @@ func (e *Enc) havocMods(fr *Frame, st *St, ms *ModSet, includeLocals bool) {
 			ms2.Fams[k] = true
 		}
 		for _, m := range e.cs.Monitors {
+			hit := ms.Fams["MONITOR"] || ms.Fams["MONITOR:"+e.monName(m)+"."+m.Mutex]
+			for _, cf := range m.Conds {
+				if ms.Fams["MONITORCOND:"+e.monName(m)+"."+cf] {
+					hit = true
+				}
+			}
+			if !hit {
+				continue
+			}
 			for _, c := range e.protectedComps(m) {
 				ms2.add(c.Fam)
 			}
@@ -598,6 +614,11 @@ func (e *Enc) havocMods(fr *Frame, st *St, ms *ModSet, includeLocals bool) {
 				e.havocComp(st, c, "")
 				hvLocals = append(hvLocals, c)
 			}
+			continue
+		}
+		if forCall && c.Fam == "G:held" {
+			// callees are lock-balanced: they return holding exactly the locks they were called with
+			e.note("callees are assumed lock-balanced (the set of held monitor locks is the same before and after a call)")
 			continue
 		}
 		if forCall && (strings.HasPrefix(c.Fam, "G:calls:") || c.Fam == "G:recv") {
